@@ -92,6 +92,46 @@ def case_hier(B, cfg):
         _check_grad(B, hl, x, 'hierarchical likelihood')
 
 
+def case_pk(B, cfg):
+    """dosed PKPD model over the myokit stub: the gradient goes through the
+    sensitivities the (stub) solver returns for the requested parameters"""
+    import chi.library
+    m = chi.library.ModelLibrary().one_compartment_pk_model()
+    m.set_administration('central', direct=cfg['direct'])
+    m.set_dosing_regimen(B.var('dose'), start=B.var('start'),
+                         period=B.var('period'), num=2)
+    if cfg.get('outputs'):
+        m.set_outputs(cfg['outputs'])
+    n_out = m.n_outputs()
+    ems = [refs.error_model(e) for e in cfg['ems'][:n_out]]
+    times = [[0.5, 2.0], [1.0]][:n_out]
+    obs = [[B.var('y%d_%d' % (o, j)) for j in range(len(times[o]))]
+           for o in range(n_out)]
+    ll = chi.LogLikelihood(m, ems, obs, times)
+    n = ll.n_parameters()
+    x = [B.var('x%d' % k) for k in range(n)]
+    for v in x:
+        B.assume(v > 0)
+    for o in range(n_out):
+        for y in obs[o]:
+            B.assume(y > 0)
+    # model outputs positive (needed by the multiplicative / log-normal
+    # error models): assumed on the solution symbols themselves
+    out = ll._mechanistic_model.simulate(ps.arr(B, x[:n - sum(
+        e.n_parameters() for e in ems)]), sorted({t for ts in times
+                                                  for t in ts}))
+    for v in np.ravel(out):
+        B.assume(v > 0)
+    if cfg.get('fix'):
+        names = ll.get_parameter_names()
+        ll.fix_parameters({names[k]: x[k] for k in cfg['fix']})
+        x = [v for k, v in enumerate(x) if k not in cfg['fix']]
+    _check_grad(B, ll, x, 'dosed likelihood')
+    if cfg.get('posterior'):
+        _check_grad(B, chi.LogPosterior(ll, SymPrior(B, len(x))), x,
+                    'dosed posterior')
+
+
 def case_guard(B, cfg):
     """One support condition violated: both evaluations are non-finite."""
     ems, times = cfg['ems'], cfg['times']
@@ -191,6 +231,24 @@ def jobs(tier):
         for j, c in enumerate(comps[::5]):
             out.append(('hier', 'case_hier', dict(
                 units=c, n_ids=2, fix=j), {}))
+    PK = {'facade': {'myokit': True}, 'diffcheck': False}
+    for direct in (True, False):
+        for ems in (['Gaussian'], ['LogNormal'], ['ConstantAndMultiplicative'],
+                    ['Multiplicative']):
+            out.append(('pk', 'case_pk', dict(direct=direct, ems=ems,
+                                              posterior=True), PK))
+        out.append(('pk', 'case_pk', dict(
+            direct=direct, ems=['Gaussian', 'LogNormal'],
+            outputs=['central.drug_concentration', 'central.drug_amount']),
+            PK))
+        for fix in ([0], [1], [0, 2]):
+            out.append(('pk', 'case_pk', dict(direct=direct, ems=['Gaussian'],
+                                              fix=fix), PK))
+    # covariates x fixed population parameters
+    covfix = [c for c in c02.compositions(2, [2], covs=(0, 1))
+              if any(u['cov'] for u in c)]
+    for j, c in enumerate(covfix[::4] if tier == 'quick' else covfix):
+        out.append(('hier', 'case_hier', dict(units=c, n_ids=2, fix=j), {}))
     for e in pairs[::3] if tier == 'quick' else pairs:
         for which in range(3):
             out.append(('guard', 'case_guard', dict(
